@@ -378,7 +378,7 @@ def run(check, an: Analysis):
     check_await_table(check, an)
     check_subscribe_table(check, an)
     # After's trigger fires at its date and triggers that very condition
-    n_trigger = 0
+    n_trigger = n_activity = 0
     for fn in sorted(an.p.functions.values(), key=lambda f: f.qn):
         if fn.cls is None or fn.cls.qn != AFTER or isinstance(fn.node, ast.Lambda):
             continue
@@ -390,26 +390,64 @@ def run(check, an: Analysis):
                     call = event.node
                     kws = {kw.arg: rules.value_text(path, index, kw.value)
                            for kw in call.keywords}
-                    what = rules.value_text(path, index, call.args[0]) if call.args else '?'
-                    ok = kws.get('at') == 'self.date' and 'delay' not in kws and \
-                        what == 'self._async_trigger()'
+                    what = rules.value_expr(path, index, call.args[0]) if call.args else None
+                    triggers = _triggers_self(an, fn, what)
+                    n_activity += triggers
+                    ok = kws.get('at') == 'self.date' and 'delay' not in kws and triggers
                     sites[id(call)] = (sites.get(id(call), (True,))[0] and ok, event.where)
         for ok, where in sites.values():
             n_trigger += 1
             check.instance('L6', 'After:trigger-site:%s' % fn.name, ok, where,
-                           'schedule(self._async_trigger(), at=self.date)')
+                           'schedule(<activity that triggers this condition>, at=self.date)')
     check.instance('L6', 'After:trigger-sites', n_trigger > 0 and
                    bool(scheduled_flags(an, AFTER)), where_fn(an.method(AFTER, '__await__')),
                    'the trigger is scheduled (%d sites) and remembered by a flag that is set '
                    'only together with it (%s)' % (n_trigger,
                                                    sorted(scheduled_flags(an, AFTER))))
-    trig = an.callee(AFTER, '_async_trigger')
-    ok = any(is_call_to(e, '__trigger__') for p in an.paths(trig) for e in p.events)
-    check.instance('L6', 'After._async_trigger', ok, where_fn(trig.fn),
-                   'the scheduled activity triggers the condition')
+    check.instance('L6', 'After._async_trigger', n_activity > 0,
+                   where_fn(an.method(AFTER, '__await__')),
+                   'the scheduled activity triggers the condition (%d schedules on paths)'
+                   % n_activity)
     # ---- L7 -----------------------------------------------------------------
     _check_optional_dates(check, an)
     check.stats.update(an.stats())
+
+
+def _triggers_self(an: Analysis, fn, activity) -> bool:
+    """
+    ``activity`` (an expression in a method of a condition) makes a coroutine that calls
+    ``__trigger__`` of that very condition on every normal path: a coroutine method
+    ``self.m()`` triggering ``self``, or a plain coroutine function given ``self`` that
+    triggers the parameter it arrives in
+    """
+    if not isinstance(activity, ast.Call) or activity.keywords:
+        return False
+    func = activity.func
+    if isinstance(func, ast.Attribute) and isinstance(func.value, ast.Name) and \
+            func.value.id == 'self' and not activity.args:
+        method = an.p.find_method(fn.cls.qn, func.attr)
+        if method is None or method.kind != 'coroutine':
+            return False
+        callee, subject = Callee(method, fn.cls.qn), 'self'
+    elif isinstance(func, ast.Name):
+        binding = an.p.resolve_dotted(fn.module, func)
+        target = an.p.functions.get(binding[1]) if binding and binding[0] == 'func' else None
+        if target is None or target.kind != 'coroutine' or target.cls is not None:
+            return False
+        params = [a.arg for a in target.node.args.posonlyargs + target.node.args.args]
+        given = [i for i, a in enumerate(activity.args)
+                 if isinstance(a, ast.Name) and a.id == 'self']
+        if len(given) != 1 or given[0] >= len(params):
+            return False
+        callee, subject = Callee(target, None), params[given[0]]
+    else:
+        return False
+    normal = [p for p in an.paths(callee) if p.normal]
+    return bool(normal) and all(
+        any(e.kind in ('call', 'enter') and isinstance(e.node, ast.Call)
+            and isinstance(e.node.func, ast.Attribute) and e.node.func.attr == '__trigger__'
+            and rules.text_at(p, e, e.node.func.value) == subject for e in p.events)
+        for p in normal)
 
 
 def check_drain(check, an: Analysis, run_events: Callee, rule: str):
